@@ -117,6 +117,19 @@ def fit_predict(p, data, xrep, yrep, qrep, vrep=None):
             if p['logical'] in ('binary', 'multi'):
                 out['stage'] = 'predict_proba'
                 out['proba'] = model.predict_proba(Xq)
+            # the caller's query container refilled in place with other rows between two calls (one buffer object, streamed
+            # chunks): the same rows handed over in a fresh container of the same kind must give the same bytes
+            out['stage'] = 'predict (reused buffer)'
+            half = Xq.shape[0] // 2
+            if half >= 1:
+                fresh = Xq[half:2 * half].clone() if hasattr(Xq, 'clone') else Xq[half:2 * half].copy()
+                buf = Xq[:half].clone() if hasattr(Xq, 'clone') else Xq[:half].copy()
+                model.predict(buf)
+                buf[...] = fresh
+                a, b = model.predict(buf), model.predict(fresh)
+                if a.tobytes() != b.tobytes():
+                    out['buffer'] = (f'predict through a reused {type(Xq).__name__} buffer differs from predict of the same rows in a fresh one '
+                                     f'({int((np.asarray(a) != np.asarray(b)).sum())} of {a.size} entries)')
             out['stage'] = None
         except Exception as e:  # noqa: BLE001 - classified by the caller
             out['records'] = rec.records
@@ -224,6 +237,8 @@ def execute(chunk):
                     res['failures'].append({'signature': f'C20:output-format:{api}', 'detail': f'{tag}: {why}'})
 
             check_format('reference', ref['pred'], ref['proba'])
+            if ref.get('buffer'):
+                res['failures'].append({'signature': f'C20:reused-buffer:{logical}', 'detail': f'float32 tensors: {ref["buffer"]}'})
             # model: output format
             for api, arr in (('predict', ref['pred']), ('predict_proba', ref['proba'])):
                 m = drv.ask({'op': 'output', 'logical': logical, 'mode': p['mode'], 'api': api, **base})
@@ -282,6 +297,8 @@ def execute(chunk):
                                             'detail': f'{tag}, {got["stage"]}: {got["error"]}'})
                     continue
                 check_format(tag, got['pred'], got['proba'])
+                if got.get('buffer'):
+                    res['failures'].append({'signature': f'C20:reused-buffer:{logical}', 'detail': f'{tag}: {got["buffer"]}'})
                 for api in ('pred', 'proba'):
                     a, b = got[api], ref[api]
                     if b is None:
